@@ -221,6 +221,9 @@ func runSweep(repo, verif, listFile, outFile string, par int, onlyOps string) {
 			results[i] = res
 			mu.Lock()
 			done++
+			if res.Outcome == "survived" {
+				fmt.Printf("SURVIVED %s:%d %s %s: %s\n", res.File, res.Line, res.Func, res.Op, res.Desc)
+			}
 			if done%20 == 0 {
 				fmt.Printf("sweep: %d/%d\n", done, len(all))
 			}
@@ -235,7 +238,6 @@ func runSweep(repo, verif, listFile, outFile string, par int, onlyOps string) {
 			k++
 		case "survived":
 			s++
-			fmt.Printf("SURVIVED %s:%d %s %s: %s\n", r.File, r.Line, r.Func, r.Op, r.Desc)
 		default:
 			inv++
 		}
